@@ -61,7 +61,8 @@ def unit_props(unit):
                 scan(a[2])
             elif s.startswith('//@ props'):
                 props.update(s.split()[2:])
-            else:
+            elif not (rel.startswith('spec/') or rel.startswith('prelude/')):
+                # membership comes from contract files only; tags in prelude/spec files serve failure attribution
                 t = parse_tags(ln)
                 if t:
                     props.update(t['props'])
